@@ -25,10 +25,13 @@ DECIDING = ["requests_vs_fresh", "memo_invariant_checks"]
 
 def cases(ctx):
     rng = ctx.rng
-    for cfg in ipgen.configs(rng, ctx.per_shard(ctx.pick(150, 6000)), quick=ctx.quick):
+    for cfg in ipgen.configs(rng, ctx.per_shard(ctx.pick(500, 12000)), quick=ctx.quick):
         n = rng.choice([1, 2, 5, 20, 60, 200, 400]) if cfg["fam"] == 4 else rng.choice([1, 3, 10, 40])
         yield {"kind": "hist", "cfg": cfg, "n": n, "hseed": rng.getrandbits(32)}
-    for fcfg in ipref.file_configs(rng, ctx.per_shard(ctx.pick(12, 600)), quick=ctx.quick):
+    for cfg in ipgen.configs(rng, ctx.pick(1, 6), fam=4, quick=ctx.quick):
+        cfg["salter"] = "default"
+        yield {"kind": "hist", "cfg": cfg, "n": 300, "hseed": rng.getrandbits(32), "warmup": ctx.pick(6000, 30000)}
+    for fcfg in ipref.file_configs(rng, ctx.per_shard(ctx.pick(30, 900)), quick=ctx.quick):
         yield {"kind": "files", "fcfg": fcfg, "lseed": rng.getrandbits(32), "nfiles": rng.randint(2, 6),
                "cli": (not ctx.quick) and rng.random() < 0.1}
 
@@ -72,6 +75,12 @@ def _hist(ctx, case):
     hist = case.get("hist") or gen_history(rng, cfg, case["n"])
     B = ipgen.hostbits(cfg)
     S = ipgen.build(cfg)
+    if case.get("warmup"):
+        # a long-lived anonymizer: many earlier requests (a large file processed before this one)
+        wr = random.Random(case["hseed"] ^ 0xABCDEF)
+        for _ in range(case["warmup"]):
+            S.anonymize(wr.getrandbits(ipgen.width(cfg)))
+        ctx.count("warmup_requests", case["warmup"])
     results = []
     snap = None
     both = set()
